@@ -58,6 +58,7 @@ type FnRun struct {
 	wraps   bool
 	linear  bool
 	guarMode bool
+	contents bool // track the element contents of append/copy (opt contents); off by default to keep VCs small
 }
 
 func (r *FnRun) note(f string, a ...interface{}) {
